@@ -70,6 +70,11 @@ def configs(rng, tier):
             {"name": "o2", "kind": "sys", "inputs": {}, "expose": {"y": ["deep", "o"]}, "components": [dev("deep", cb={"kind": "period", "p": P}), dev("deepq")]},
             dev("mid", {"i": ["o2", "y"]})]}, dev("top", {"i": ["o1", "y"]}), dev("other", cb={"kind": "period", "p": P})]},
     ]
+    # nothing ever asks for a callback: after the initial tick the master waits for a wakeup that never comes,
+    # so a failure that is reported only after the component has already answered the tick must still end the run
+    out.append({"components": [dev("qs"), dev("qk", {"i": ["qs", "o"]})]})
+    out.append({"components": [dev("qa"), {"name": "qsys", "kind": "sys", "inputs": {"x": ["qa", "o"]}, "expose": {"y": ["qi", "o"]},
+                                           "components": [dev("qi", {"i": ["external", "x"]}), dev("qj")]}, dev("qz", {"i": ["qsys", "y"]})]})
     if tier == "thorough":
         for _ in range(8):
             out.append(S.gen_nested(rng, depth=2, max_n=6))
